@@ -54,11 +54,24 @@ type result struct {
 	pv       any
 }
 
+var callNo int
+
 func callImpl(r *mon.Run, id string, x []byte, m method, chunk int) result {
 	cr := &countingReader{b: x, chunk: chunk}
 	var res result
+	// every third whole-input call reads from a bytes.Buffer over a private copy that the caller overwrites as soon as the
+	// call has returned (a result that is a view of the caller's buffer does not survive that)
+	callNo++
+	var mem []byte
+	var bb *bytes.Buffer
+	var src io.Reader = cr
+	if chunk == 0 && callNo%3 == 0 {
+		mem = append([]byte{}, x...)
+		bb = bytes.NewBuffer(mem)
+		src = bb
+	}
 	p, v := r.Call(id, x, func() {
-		d := cbor.NewDecoder(cr)
+		d := cbor.NewDecoder(src)
 		var err error
 		switch m.name {
 		case "DecodeUint":
@@ -78,6 +91,12 @@ func callImpl(r *mon.Run, id string, x []byte, m method, chunk int) result {
 	})
 	res.panicked, res.pv = p, v
 	res.consumed = cr.pos
+	if bb != nil {
+		res.consumed = len(x) - bb.Len()
+		for i := range mem {
+			mem[i] = 0xCC
+		}
+	}
 	return res
 }
 
